@@ -411,6 +411,10 @@ func (a Int) M__imul__(other Object) (Object, error) {
 func (a Int) M__truediv__(other Object) (Object, error) {
 	b, err := MakeFloat(other)
 	if err != nil {
+		if IsException(TypeError, err) {
+			// not a real number - let it try the reflected operation
+			return NotImplemented, nil
+		}
 		return nil, err
 	}
 	fa := Float(a)
@@ -424,6 +428,10 @@ func (a Int) M__truediv__(other Object) (Object, error) {
 func (a Int) M__rtruediv__(other Object) (Object, error) {
 	b, err := MakeFloat(other)
 	if err != nil {
+		if IsException(TypeError, err) {
+			// not a real number - let it try the reflected operation
+			return NotImplemented, nil
+		}
 		return nil, err
 	}
 	fa := Float(a)
